@@ -78,6 +78,29 @@ def gen_cases(seed, n_grammars, n_strings, gen_kwargs=None, all_offsets=True, ma
     return out
 
 
+class CaseBudgetExceeded(BaseException):
+    pass
+
+
+def _on_vtalrm(signum, frame):
+    raise CaseBudgetExceeded()
+
+
+def with_budget(seconds, fn, default):
+    """run fn() under a CPU-time budget (SIGVTALRM); a real implementation that needs longer than this for a
+    10-character input over a 4-rule grammar does not 'terminate within a polynomial work bound'"""
+    import signal
+    old = signal.signal(signal.SIGVTALRM, _on_vtalrm)
+    signal.setitimer(signal.ITIMER_VIRTUAL, seconds)
+    try:
+        return fn()
+    except CaseBudgetExceeded:
+        return default
+    finally:
+        signal.setitimer(signal.ITIMER_VIRTUAL, 0)
+        signal.signal(signal.SIGVTALRM, old)
+
+
 def eval_py(P, mode, gcases, text_route=False):
     """Runs the real code; returns per grammar (wire grammar lines, [(s, i, query line, outcome)]).
     The model grammar is encoded from the AST, not from the library's objects.  With text_route every
@@ -100,7 +123,13 @@ def eval_py(P, mode, gcases, text_route=False):
         glines = G.grammar_wire(gr)
         exp = []
         for s, i in cases:
-            pys = py_outcomes(P, mode, rules[0], s, i) if build_exc is None else [build_exc] * len(case_lines(mode, s, i))
+            if build_exc is None:
+                n_out = len(case_lines(mode, s, i))
+                pys = with_budget(20.0, lambda: py_outcomes(P, mode, rules[0], s, i), ["exc:no-result-within-20s-cpu"] * n_out)
+                if pys[0].startswith("exc:no-result"):
+                    build_exc = pys[0]   # do not spend the budget again on this grammar
+            else:
+                pys = [build_exc] * len(case_lines(mode, s, i))
             for line, py in zip(case_lines(mode, s, i), pys):
                 exp.append((s, i, line, py))
         res.append((glines, exp))
